@@ -231,6 +231,17 @@ def run_all(tier, seed):
                 if v1 != v0:
                     fail("value-differs", f"unpickled {kk} reads {str(v1)[:200]}, the original holds {str(v0)[:200]}", c1)
                     ok = False
+            # "fully usable": the parts of a hybrid object come back as what they were (dressed hybrid objects, not bare structs)
+            for o, o0, kk in zip(out, sub, kinds):
+                if hasattr(o0, "_xobject"):
+                    for ff in o0._XoStruct._fields:
+                        if not hasattr(ff.ftype, "_DressingClass"):
+                            continue    # a reference is read back as the bare struct unless it was assigned in this process: by design
+                        f = ff.name
+                        a0, a1 = getattr(o0, f), getattr(o, f)
+                        if hasattr(a0, "_xobject") and type(a1).__name__ != type(a0).__name__:
+                            fail("part-not-dressed", f"unpickled {kk}: attribute {f} is a {type(a1).__name__}, it was a {type(a0).__name__}", c1)
+                            ok = False
             if not ok:
                 continue
             # ---- pickling is repeatable: the originals are untouched, and both they and the copies can be pickled again
